@@ -297,3 +297,23 @@ def conc_int(x):
 def is_conc(x):
     x = simp(x)
     return not isinstance(x, z3.ExprRef)
+
+
+def exists_box(dims, f):
+    """exists idx in the box [0,d0) x [0,d1) x ... with f(idx).  Symbolic: a real z3 Exists (its
+    negation on the other branch of a `branch` is then the full universal fact); concrete: any()."""
+    dims = list(dims)
+    probe_sym = any_sym(*dims)
+    if not probe_sym:
+        try:
+            vals = [f(*idx) for idx in itertools.product(*[range(int(d)) for d in dims])]
+            if not any_sym(*vals):
+                return any(bool(v) for v in vals)
+            return Or(*vals)
+        except Exception:
+            pass
+    ks = [z3.Int('ex!%d' % next(_fresh_ctr)) for _ in dims]
+    body = simp(And(And(*[in_range(k, 0, d) for k, d in zip(ks, dims)]), f(*ks)))
+    if body is True or body is False:
+        return body
+    return z3.Exists(ks, body)
